@@ -247,7 +247,11 @@ def run_value_types():
 def worker(chunk):
     out = {"records": [], "calls": 0, "cases": 0}
     for nc in chunk:
-        r, c = run_names_case(nc)
+        try:
+            r, c = run_names_case(nc)
+        except Exception as ex:
+            from . import common as _c
+            r, c = [_c.crash_record("constructors", ex, names=[n for n, f in zip(NAMES, nc["names"]) if f == "T"])], 0
         out["records"] += r
         out["calls"] += c
         out["cases"] += 1
